@@ -172,6 +172,8 @@ def value_iteration_tabular(
                 if mdp.is_absorbing(s) or mdp._unable_to_reach_absorbing[si]:
                     continue
                 for ns, prob in mdp.next_state_dist(s, a).items():
+                    if prob == 0:
+                        continue
                     action_values[s][a] += prob*(mdp.reward(s, a, ns) + mdp.discount_rate*state_values[ns])
         residual = 0
         for s in mdp.state_list:
